@@ -14,13 +14,16 @@ RULE = (
     "random directory trees (nesting <=3, names with blanks and the glob metacharacters [ * ? # ! and a leading dash, "
     "source and non-source extensions, file and directory symlinks, dangling links, links to outside and from outside) "
     "crossed with lists of 0-5 gitignore patterns derived from the tree's own names (literal, *, ?, [classes], **, "
-    "escapes, leading /, trailing /, ! negation, # comments, trailing blanks). Oracle: `git check-ignore --no-index -v -n "
+    "escapes, leading /, trailing /, ! negation, # comments, trailing blanks), plus a constructed list in about one tree of seven: a pattern "
+    "matching a nested file by its own name followed by the negated directory-only pattern of one of its ancestors (git "
+    "re-includes the directory, the file stays ignored). Oracle: `git check-ignore --no-index -v -n "
     "-z --stdin` in a throw-away repository whose info/exclude holds the patterns decides whether the root-relative "
     "resolved path is ignored; a direct os model decides the rest (existing regular file, recognised extension, under "
     "the resolved root). Observed: `p in CodeBase(...)` for every spelling of every path (absolute, relative to several "
     "working directories, with ./ and .. segments, through each link) - all spellings must agree - and list(CodeBase): "
     "every yielded path is a member and the real paths yielded are exactly the member files. Non-trivial: some pattern "
-    "matches one file and spares another and the list uses an anchor, a trailing slash, **, a class or a negation; distinct by tree+patterns."
+    "matches one file and spares another and the list uses an anchor, a trailing slash, **, a class or a negation; distinct by tree+patterns. "
+    "A disagreement with git is filed under the two known pathspec findings only when pathspec.GitIgnoreSpec, asked directly, gives the observed answer."
 )
 ASSUMPTIONS = [
     "git 2.39 is the reference for .gitignore semantics (the code base documents git behaviour and delegates to pathspec.GitIgnoreSpec)",
@@ -107,9 +110,31 @@ def case_strategy():
             ext = os.path.splitext(base)[1]
             broad = draw(st.sampled_from((["*" + esc(ext)] if ext else []) + [esc(base[:1]) + "*", "*"]))
             patterns = patterns[:2] + [broad, "!" + esc(base), broad]
+        shape = None
+        deep = [f for f in files if "/" in f]
+        if deep and draw(st.integers(0, 6)) == 0:
+            # constructed scenario: a pattern that matches a file by its own name / path, followed by the negation of a
+            # *directory-only* pattern for one of the file's ancestors.  In git the negation re-includes the directory, not
+            # the file (its own name is still matched); an implementation that lets the last matching pattern of the whole
+            # list decide for the whole path re-includes the file.
+            src = [f for f in deep if os.path.splitext(f)[1] in SOURCE_EXT]
+            f = draw(st.sampled_from(src or deep))
+            parts = f.split("/")
+            base = parts[-1]
+            ext = os.path.splitext(base)[1]
+            d = "/".join(esc(p) for p in parts[:-1])
+            own = [esc(base), "*", d + "/*", d + "/**", "**/" + esc(base), "/" + d + "/" + esc(base), esc(base[:1]) + "*"] + (["*" + esc(ext)] * 3 if ext else [])
+            i = draw(st.integers(1, len(parts) - 1))
+            anc = "/".join(esc(p) for p in parts[:i])
+            negdir = ["!" + anc + "/", "!/" + anc + "/", "!" + esc(parts[i - 1]) + "/", "!**/" + esc(parts[i - 1]) + "/", "!*/", "!" + d + "/"]
+            patterns = patterns[:draw(st.integers(0, 2))] + [draw(st.sampled_from(own))] + draw(st.lists(pat, max_size=1)) + [draw(st.sampled_from(negdir))]
+            shape = {"name": "file-pattern-then-negated-directory", "file": f}
         # a FIFO named like a source file (not a regular file, so not a member)
         fifo = draw(st.sampled_from([None, None, None, "pipe.c", (dirs[0] + "/pipe.h") if dirs else "pipe.h"]))
-        return {"files": files, "links": links, "patterns": patterns, "fifo": fifo}
+        case = {"files": files, "links": links, "patterns": patterns, "fifo": fifo}
+        if shape:
+            case["shape"] = shape
+        return case
 
     return case()
 
@@ -152,6 +177,18 @@ def git_matched(gitdir, root, patterns, relpaths):
     p = subprocess.run(["git", f"--git-dir={gitdir}", f"--work-tree={root}", "-c", "core.bare=false", "check-ignore", "--no-index", "-v", "-n", "-z", "--stdin"], input=inp, stdout=subprocess.PIPE, stderr=subprocess.PIPE, cwd=root, env=env)
     fields = p.stdout.split(b"\0")[:-1]
     return any(fields[i + 2] for i in range(0, len(fields), 4))
+
+
+def library_ignored(patterns, rel):
+    """What the third-party library answers when it is asked directly (pathspec.GitIgnoreSpec, not through the code under
+    test).  Used only to decide whether a disagreement with git *is* one of the known library divergences - never as the
+    expected value."""
+    try:
+        import pathspec
+
+        return bool(pathspec.GitIgnoreSpec.from_lines(list(patterns)).match_file(rel))
+    except Exception:
+        return None
 
 
 def pattern_features(p):
@@ -299,19 +336,24 @@ def check_case(case, res: Result):
                     pats = case["patterns"]
                     negs = [q for q in pats if q.startswith("!")]
                     parents = ["/".join(rel.split("/")[:i]) for i in range(1, rel.count("/") + 1)]
-                    if negs and parents and git_matched(gd, rroot, pats, parents):
+                    # the two known findings are behaviour of the pathspec library; an answer that differs from what the
+                    # library itself gives for this pattern list is not one of them, whatever the patterns look like
+                    lib = library_ignored(pats, rel)
+                    from_library = lib is not None and got == (cand[real] and not lib)
+                    note = "" if from_library or lib is None else f"pathspec.GitIgnoreSpec asked directly answers ignored={lib} for this path: not one of the known library divergences"
+                    if from_library and negs and parents and git_matched(gd, rroot, pats, parents):
                         # git decides directories first (an excluded directory hides everything beneath it, patterns
                         # ending in / never apply to files); pathspec matches the whole path once.
                         rest = [q for q in pats if not q.startswith("!")]
                         g2 = git_ignored(gd, rroot, rest, [rel])[rel]
                         if (real in CodeBase(root, exclude_patterns=rest)) == (cand[real] and not g2):
                             sig = SIG_REINCLUDE
-                    if sig != SIG_REINCLUDE and any(q.lstrip("!").rstrip(" ").endswith("**/") for q in pats):
+                    if from_library and sig != SIG_REINCLUDE and any(q.lstrip("!").rstrip(" ").endswith("**/") for q in pats):
                         rest = [q for q in pats if not q.lstrip("!").rstrip(" ").endswith("**/")]
                         g2 = git_ignored(gd, rroot, rest, [rel])[rel]
                         if (real in CodeBase(root, exclude_patterns=rest)) == (cand[real] and not g2):
                             sig = SIG_DSTAR
-                    vs.append(make_violation(sig, cj, {"path": rel, "member": expected[real], "git_ignored": ign.get(rel)}, {"member": got}))
+                    vs.append(make_violation(sig, cj, {"path": rel, "member": expected[real], "git_ignored": ign.get(rel)}, {"member": got}, note))
                     return vs
         finally:
             os.chdir(cwd)
@@ -329,6 +371,13 @@ def check_case(case, res: Result):
         matched = [r for r in rels if ign[r]]
         spared = [r for r in rels if not ign[r]]
         nt = bool(matched) and bool(spared) and bool(set(feats) & {"anchored", "dir-only", "**", "class", "neg"})
+        if case.get("shape"):
+            # the constructed shape counts when git really keeps the file ignored although a later negation matches an ancestor
+            tf = case["shape"]["file"]
+            tparents = ["/".join(tf.split("/")[:i]) for i in range(1, tf.count("/") + 1)]
+            realized = ign.get(tf) is True and git_matched(os.path.join(top, "gitdir"), rroot, [q for q in case["patterns"] if q.startswith("!")], tparents)
+            feats = feats + [f"shape={case['shape']['name']}:" + ("file-stays-ignored-under-re-included-directory" if realized else "not-realised")]
+            nt = nt or bool(realized and spared)
         res.case(key=case, nontrivial=nt, sample={"files": case["files"], "links": case["links"], "patterns": case["patterns"], "ignored": matched} if nt else None, labels=feats + [f"links={len(case['links'])}"])
     return vs
 
